@@ -736,13 +736,16 @@ func (g *Gen) boolean(d int) *X {
 			// int: its value is of one kind or the other, never converted
 			ks := []Kind{KUint8, KInt8, KUint16, KInt64, KUint, KInt32, KInt}
 			k1, k2 := ks[g.pick(len(ks), "mck1")], ks[g.pick(len(ks), "mck2")]
-			saved, savedDyn := g.ConstBias, g.Dyn
+			saved, savedDyn, savedClos := g.ConstBias, g.Dyn, g.Clos
 			g.ConstBias = 0
 			if g.Excl["in-array-dyn-arith"] {
-				g.Dyn = false // an integer branch next to a dynamically typed one is typed int: open finding F26
+				// an integer branch next to a dynamically typed one is typed int (open finding F26): no Any, and no
+				// `#` (dynamically typed over a literal array or a builtin's result, int over a range even where no
+				// environment is declared)
+				g.Dyn, g.Clos = false, nil
 			}
 			a, b := g.Leaf(Num(k1)), g.Leaf(Num(k2))
-			g.ConstBias, g.Dyn = saved, savedDyn
+			g.ConstBias, g.Dyn, g.Clos = saved, savedDyn, savedClos
 			if g.coin("mclit") && !(g.AllDynamic && g.Excl["in-array-dyn-arith"]) {
 				// (without a declared environment the other branch is of unknown type and the checker types the
 				// conditional by its literal branch: the region of open finding F26)
